@@ -68,12 +68,16 @@ def _grid_receiver(e, tainted):
     return None
 
 
-def run(repo, res, rid, floor=1):
+def run(repo, res, rid, floor=1, scope=None):
+    from .common import in_scope
+
     n_scatter = 0
     for mod in MODULES:
         if mod not in repo.mods:
             continue
         for q, f in repo.mods[mod].funcs.items():
+            if not in_scope(scope, mod, q):
+                continue
             nodes = list(own_nodes(f))
             if not any(isinstance(n, ast.Attribute) and n.attr == "grid_data" for n in nodes):
                 continue
